@@ -27,7 +27,8 @@ def FLOORS(tier):
     f = {"ground-state-rows-decoded": 1500 if q else 50000, "is_solution_valid-checks": 8000 if q else 3 * 10 ** 5,
          "solve_bruteforce-calls": 250 if q else 8000, "solve_bruteforce-all_solutions-calls": 60 if q else 2500, "SetCover:log_trick=True": 10, "SetCover:log_trick=False": 10,
          "JobSequencing:log_trick=True": 10, "JobSequencing:log_trick=False": 10, "weights:default": 100,
-         "weights:just-above-threshold": 100, "spin-input-decoded": 300,
+         "weights:just-above-threshold": 100, "spin-input-decoded": 300, "SetCover:zero-weight-subset": 7,
+         "JobSequencing:dict-names:int": 4, "NumberPartitioning:large-integers": 7,
          "VertexCover:duplicate-orientation-or-self-loop": 6, "SetCover:star-overlap": 6}
     for c in CLASSES:
         f["class:" + c] = 30 if q else 1000
@@ -150,8 +151,10 @@ def do_SetCover(ctx, rng, w, bad, call):
         return
     wts = None
     if rng.random() < 0.4:
-        wts = [rng.choice([0.25, 0.5, 1]) for _ in range(N)]
+        wts = [rng.choice([0.25, 0.5, 1, 0]) for _ in range(N)]      # a subset may be free (weight 0); max(weights) == 1 is all that is asked
         wts[rng.randrange(N)] = 1
+        if 0 in wts:
+            ctx.cat("SetCover:zero-weight-subset")
     lt = rng.random() < 0.5
     ctx.cat("SetCover:log_trick=%s" % lt)
     w.update(U=U, V=V, weights=wts, log_trick=lt)
@@ -296,7 +299,13 @@ def do_JobSequencing(ctx, rng, w, bad, call):
     lengths = [rng.randint(1, 3) for _ in range(nj)]
     lt = rng.random() < 0.5
     asdict = rng.random() < 0.3
-    jl = {("j%d" % i): l for i, l in enumerate(lengths)} if asdict else (lengths if rng.random() < 0.5 else tuple(lengths))
+    if asdict:
+        names = rng.choice([["j%d" % i for i in range(nj)], [i + 1 for i in range(nj)], [10 * (i + 1) for i in range(nj)],
+                            (["a", 5, ("t", 1)])[:nj], [nj - i for i in range(nj)]])     # job names are the dict's keys: strings, ints from 1, gaps, mixed
+        ctx.cat("JobSequencing:dict-names:" + ("str" if all(isinstance(x, str) for x in names) else ("int" if all(isinstance(x, int) for x in names) else "mixed")))
+        jl = dict(zip(names, lengths))
+    else:
+        jl = lengths if rng.random() < 0.5 else tuple(lengths)
     jobs = list(jl) if asdict else list(range(nj))
     length_of = (lambda j: jl[j])
     ctx.cat("JobSequencing:log_trick=%s" % lt)
@@ -418,7 +427,37 @@ def do_GraphPartitioning(ctx, rng, w, bad, call):
     ctx.sample({"class": "GraphPartitioning", "edges": arg, "optimum": best}, limit=1)
 
 
+def big_number_partitioning(ctx, rng, w, bad, call):
+    """numbers of the order 1e9..1e12 (exact Python ints): balanced means sums are EQUAL, not close"""
+    base = rng.choice([10 ** 9, 3 * 10 ** 12, 2 ** 40])
+    k = rng.randint(1, 3)
+    S = [base] * k + [base + rng.choice([0, 1, 7])] * k
+    if rng.random() < 0.5:
+        S += [base * 2, base, base + rng.choice([0, 1])]
+    rng.shuffle(S)
+    if rng.random() < 0.5:
+        S = tuple(S)
+    N = len(S)
+    w.update(S=S, **{"class": "NumberPartitioning (large exact integers)"})
+    p = call("init", L.problems.NumberPartitioning, S)
+    ctx.cat("NumberPartitioning:large-integers")
+    for i in range(1 << N):
+        z = bits(i, N, True)
+        d = sum(s_ * zz for s_, zz in zip(S, z))
+        ctx.count("is_solution_valid-checks")
+        for arg, sp in ((containers(rng, z, N), True), (containers(rng, bits(i, N, False), N), False)):
+            if not sp and all(v == 1 for v in bits(i, N, False)):
+                continue
+            got = call("is_solution_valid", p.is_solution_valid, arg, spin=sp)
+            if bool(got) != (d == 0):
+                bad("is_solution_valid-disagrees:large-integers", "is_solution_valid(%r)=%r, difference of the two sums %r" % (arg, got, d))
+                return
+    ctx.nontrivial(("NumberPartitioning-large", list(S)))
+
+
 def do_NumberPartitioning(ctx, rng, w, bad, call):
+    if rng.random() < 0.15:
+        return big_number_partitioning(ctx, rng, w, bad, call)
     N = rng.randint(2, 7)
     S = [rng.randint(1, 6) * rng.choice([1, 1, -1]) for _ in range(N)]
     if rng.random() < 0.5:
